@@ -207,8 +207,10 @@ def run_config(cfg):
                     # (also another weighting distance: whatever survives
                     # from this fit is then visibly not the requested one)
                     idnt.fit_model(**dict(kw, range_x=near,
-                                          weight_cp=(0 if cfg["weight_cp"]
-                                                     else 5e-7),
+                                          weight_cp=((0 if cfg["weight_cp"]
+                                                      else 5e-7)
+                                                     if cfg.get("prefit_w")
+                                                     else cfg["weight_cp"]),
                                           params_initial=make_params(cfg,
                                                                      idnt)))
             except BaseException as exc:
@@ -325,6 +327,9 @@ def fit_lattice(tier, rng, focus):
             cfg["method"] = "nelder"
         if mode == "abs" and rng.random() < .3:
             cfg["prefit"] = rng.choice([8e-9, 3e-9, 5e-8])
+            # (the first fit differs in the interval only, or also in the
+            # weighting distance)
+            cfg["prefit_w"] = rng.random() < .5
             if rng.random() < .5:
                 cfg["fault"] = True
         elif rng.random() < .08:
@@ -490,7 +495,8 @@ def fingerprint(c):
     return "fit:" + ",".join(f"{k}={c[k]}" for k in
                              ("curve", "model", "segment", "mode", "interval",
                               "k", "weight_cp", "vary", "cp_init", "noise",
-                              "pipe", "post", "fault", "x_axis")
+                              "pipe", "post", "fault", "x_axis", "prefit",
+                              "prefit_w")
                              if k in c)
 
 
